@@ -595,6 +595,25 @@ func (sr *svcRun) collide() {
 		s.apply(Op{V: "add", K: "Http", N: "B"}) // must be refused
 		s.apply(Op{V: "fresh"})
 		sr.check("refused built-in adds")
+	case "same-service-listener-from-two-connections":
+		// a second service connection announces the listener kind the first one registered
+		// (same name, same agent type): whatever it is told, the kind stays the first one's,
+		// also after the second connection has gone
+		if !sr.connect(1) {
+			return
+		}
+		c1 := sr.conns[1]
+		c1.AddListener(sr.items[0].lkind, sr.items[0].agent)
+		sr.reqID++
+		if _, _, got := c1.AddExC2("H", "c16-barrier-2", fmt.Sprintf("rq%d", sr.reqID), 30*time.Second); !got {
+			s.broken = "second service connection stopped answering"
+			return
+		}
+		sr.check("a second connection's announcement of the same listener kind")
+		sr.disconnect(1, "disconnect of the second connection, which had announced the first one's listener kind again", false, 0)
+		if s.broken != "" {
+			return
+		}
 	case "exc2-twice":
 		exc2("X", "xe-X", true)
 		exc2("X", "xe-X2", false)
